@@ -1,9 +1,9 @@
-import SFV.Driver.K1
+import SFV.Gen.Handlers
 /-! Line-protocol driver: one JSON request per input line (`{"op": ..., ...}`), one JSON response
 per output line (`{"r": ...}` or `{"error": ...}`).  Run with `lake env lean --run Driver.lean`. -/
 open Lean SFV.Drv
 
-def handlers : List (String → Json → Option (R Json)) := [k1]
+def handlers : List (String → Json → Option (R Json)) := allHandlers
 
 def dispatch (line : String) : Json :=
   match Json.parse line with
